@@ -64,7 +64,7 @@ def public_paths(docs):
     return out
 
 
-def run(facts, enc, table_rows, docs, work, evalf, CLASSES, PAYLOAD_TY, MARK_TY):
+def run(facts, enc, table_rows, docs, work, evalf, CLASSES, PAYLOAD_TY, MARK_TY, wrapper_rows=()):
     pp = public_paths(docs)
     lines = [PRELUDE, "fn main() {\n"]
     expect = {}      # row id -> dict(kind, rule, combo, enc_conc(S,Y), enc_opq(S,Y) or None)
@@ -131,6 +131,22 @@ def run(facts, enc, table_rows, docs, work, evalf, CLASSES, PAYLOAD_TY, MARK_TY)
                         lines.append("    row(\"%s.o\", Pr::<%s>::S, Pr::<%s>::Y, true);\n" % (cid, ot, ot))
                     expect[cid] = {"kind": kind, "rule": head, "class": (a, b), "enc_pre": e_pre, "enc_c": e_c, "enc_o": e_o,
                                    "ty": ty, "cross": True}
+    wexpect = {}
+    for (head, conc, std_t, std_tmpl) in wrapper_rows:
+        tmpl = LEAF_TY.get(head)
+        if not tmpl:
+            continue
+        for cls in CLASSES:
+            venv = {"send_P": cls[0], "sync_P": cls[1]}
+            rid += 1
+            cid = "w%d" % rid
+            ty = tmpl.replace("{P}", PAYLOAD_TY[cls])
+            sty = std_tmpl.replace("{P}", PAYLOAD_TY[cls])
+            lines.append("    row(\"%s.c\", Pr::<%s>::S, Pr::<%s>::Y, false);\n" % (cid, ty, ty))
+            lines.append("    row(\"%s.s\", Pr::<%s>::S, Pr::<%s>::Y, false);\n" % (cid, sty, sty))
+            wexpect[cid] = {"rule": head, "class": cls, "ty": ty, "std": sty,
+                            "enc_c": (evalf(enc.holds("Send", conc), venv), evalf(enc.holds("Sync", conc), venv)),
+                            "enc_s": (evalf(enc.holds("Send", std_t), venv), evalf(enc.holds("Sync", std_t), venv))}
     lines.append("}\n")
     pdir = os.path.join(work, "probe")
     os.makedirs(os.path.join(pdir, "src"), exist_ok=True)
@@ -192,6 +208,25 @@ def run(facts, enc, table_rows, docs, work, evalf, CLASSES, PAYLOAD_TY, MARK_TY)
                 for mi, mname in ((0, "Send"), (1, "Sync")):
                     if o[mi] and not c[mi]:
                         res["confirm"][(e["rule"], mname)] = True
+            # carrier soundness: the composite type has the marker although its instance handle (class A) does not
+            if e["kind"] != "leaf":
+                a, b = e["class"]
+                for mi, mname in ((0, "Send"), (1, "Sync")):
+                    if c[mi] and not a[mi]:
+                        res["confirm"][("carrier:" + e["rule"], mname)] = True
+    for cid, e in wexpect.items():
+        c = got.get(cid + ".c")
+        sd = got.get(cid + ".s")
+        if c is None or sd is None:
+            continue
+        res["cells_compared"] += 4
+        if (c[0], c[1]) != e["enc_c"]:
+            res["disagreements"].append({"row": e["ty"], "what": "wrapper", "rustc": c[:2], "encoder": e["enc_c"]})
+        if (sd[0], sd[1]) != e["enc_s"]:
+            res["disagreements"].append({"row": e["std"], "what": "std handle", "rustc": sd[:2], "encoder": e["enc_s"]})
+        for mi, mname in ((0, "Send"), (1, "Sync")):
+            if c[mi] and not sd[mi]:
+                res["confirm"][("wrapper:" + e["rule"], mname)] = True
     for key in [(e["rule"], m) for e in expect.values() for m in ("Send", "Sync")]:
         res["confirm"].setdefault(key, False)
     if res["disagreements"]:
